@@ -45,8 +45,18 @@ impl<'a> Operator<&'a Vec<Kid>> for Maker {
         if self.fail_calls.contains(&k) {
             return Err(Injected(k));
         }
-        Ok(Kid { id: NEXT_ID.fetch_add(1, Ordering::SeqCst), word, seen_ptr: p.as_ptr() as usize, seen_ids: p.iter().map(|x| x.id).collect() })
+        // small populations: the ids seen; large ones: their number and a digest (memory would be quadratic)
+        let seen_ids: Vec<u64> = if p.len() <= 300 { p.iter().map(|x| x.id).collect() } else { spot(p, word) };
+        Ok(Kid { id: NEXT_ID.fetch_add(1, Ordering::SeqCst), word, seen_ptr: p.as_ptr() as usize, seen_ids })
     }
+}
+
+/// what a child records of a large population (recording all ids would be quadratic): its size and the
+/// ids at the first, middle and last position and at a position derived from the child's own random word
+pub fn spot(p: &[Kid], word: u64) -> Vec<u64> {
+    let n = p.len();
+    let idx = (word % n as u64) as usize;
+    vec![n as u64, p[0].id, p[n / 2].id, p[n - 1].id, idx as u64, p[idx].id]
 }
 
 pub fn initial(n: usize) -> Vec<Kid> {
@@ -66,20 +76,20 @@ pub fn judge(before: &[Kid], before_ptr: usize, after: &[Kid], after_ptr: usize,
                 return Some(("size", format!("population of {n} was replaced by {} individuals", after.len())));
             }
             let old_ids: Vec<u64> = before.iter().map(|k| k.id).collect();
+            let old_set: std::collections::HashSet<u64> = old_ids.iter().copied().collect();
             for (i, k) in after.iter().enumerate() {
-                if old_ids.contains(&k.id) {
+                if old_set.contains(&k.id) {
                     return Some(("not-fresh", format!("individual {i} of the new population is an individual of the old one")));
                 }
-                if k.seen_ids != old_ids || k.seen_ptr != before_ptr {
-                    return Some(("stale-or-modified-parents", format!("child {i} was made from a population with ids {:?}, the previous population was {old_ids:?}", k.seen_ids)));
+                let expect_seen: Vec<u64> = if n <= 300 { old_ids.clone() } else { spot(before, k.word) };
+                if k.seen_ids != expect_seen || k.seen_ptr != before_ptr {
+                    return Some(("stale-or-modified-parents", format!("child {i} was made from a population with ids {:?}{}, the previous population was {:?}", &k.seen_ids[..k.seen_ids.len().min(12)], if n > 300 { " (size, first, middle, last, a position, the id there)" } else { "" }, &expect_seen[..expect_seen.len().min(12)])));
                 }
             }
-            for i in 0..after.len() {
-                for j in i + 1..after.len() {
-                    if after[i].word == after[j].word {
-                        return Some(("correlated-randomness", format!("children {i} and {j} drew the same random word {:#x}: they are copies of one draw", after[i].word)));
-                    }
-                }
+            let mut by_word: Vec<(u64, usize)> = after.iter().enumerate().map(|(i, k)| (k.word, i)).collect();
+            by_word.sort();
+            if let Some(w) = by_word.windows(2).find(|w| w[0].0 == w[1].0) {
+                return Some(("correlated-randomness", format!("children {} and {} drew the same random word {:#x}: they are copies of one draw", w[0].1, w[1].1, w[0].0)));
             }
             if calls != n {
                 return Some(("calls", format!("{calls} children were made for a population of {n}")));
@@ -243,7 +253,8 @@ pub fn run(run: &mut Run) {
         }
     }
     // larger populations (rayon splits them into many more jobs than threads): a reduced fault product
-    let big_sizes: Vec<usize> = if quick { (7usize..=40).chain([64, 65, 97, 257]).collect() } else { (7usize..=130).chain([255, 256, 257, 1000, 1009]).collect() };
+    // up to sizes at which any job-size or chunking threshold of a parallel step has long been crossed
+    let big_sizes: Vec<usize> = if quick { (7usize..=40).chain([64, 65, 97, 257, 1000, 1009, 2018, 4099, 10007, 65537]).collect() } else { (7usize..=130).chain([255, 256, 257, 1000, 1009, 2018, 4099, 10007, 65537, 131101]).collect() };
     for &n in &big_sizes {
         let plans: Vec<Vec<usize>> = vec![vec![], vec![0], vec![n - 1], vec![n / 2], vec![0, n - 1], vec![n / 3, n / 2]];
         for plan in plans {
@@ -253,11 +264,11 @@ pub fn run(run: &mut Run) {
                 run.violation(format!("serial_next/{k}"), format!("serial_next, population {n}, failing calls {plan:?}: {w}"), json!({"check":"C09","variant":"serial","n":n,"fail":plan,"threads":0}));
             }
             for (pi, t) in pools.iter().enumerate() {
-                if ![1usize, 2, 3, 8, 16].contains(t) {
+                if ![1usize, 2, 3, 8, 16].contains(t) || (n > 5000 && ![1usize, 3, 16].contains(t)) {
                     continue;
                 }
                 configs += 1;
-                for _ in 0..if quick { 3 } else { 20 } {
+                for _ in 0..if n > 5000 { 1 } else if quick { 3 } else { 20 } {
                     execs += 1;
                     if let (Some((k, w)), _) = execute(true, n, &plan, Some(&built[pi])) {
                         run.violation(format!("par_next/{k}"), format!("par_next, population {n}, failing calls {plan:?}, {t} threads: {w}"), json!({"check":"C09","variant":"par","n":n,"fail":plan,"threads":t}));
